@@ -21,27 +21,33 @@ META = dict(
         "times are exact reals (ticks/100 + btime)",
     ],
     stubs=["open() of /proc/<pid>/stat and /proc/stat", "os.listdir('/proc')", "hash() of symbolic reals (injective model)"],
-    bounds=dict(quick=dict(history="K<=3 events over one PID from {exit, zombie, reuse, clock step, boot_time(), new object, is_running(), process_iter(), create_time()}", objects="<= 4"),
+    bounds=dict(quick=dict(history="K<=3 events over one PID from {exit, zombie, reuse, clock step, boot_time(), new object, is_running(), process_iter(), create_time(), rename}; process names from 4 witnesses with parentheses/blanks/newline", objects="<= 4"),
                 thorough=dict(history="K<=5", objects="<= 6")),
     outside=["two incarnations of a PID started in the same clock tick", "longer histories", "hash collisions"],
     labels=["eq-iff-same-incarnation", "equal-hash", "is_running-follows-the-process", "is_running-stays-false"],
 )
 
 
-@harness("C02.identity", quick=[dict(K=2, with_clock=True), dict(K=3, with_clock=False), dict(K=3, with_clock=True)], thorough=[dict(K=4, with_clock=True), dict(K=5, with_clock=False), dict(K=5, with_clock=True)])
-def identity(ctx, K, with_clock):
+NAMES = [b"cat", b"job (retry) 2", b") (", b"a\nb c) S 1 2 3"]
+
+
+@harness("C02.identity", quick=[dict(K=2, with_clock=True), dict(K=3, with_clock=False), dict(K=3, with_clock=True), dict(K=2, with_clock=False, names=True)],
+         thorough=[dict(K=4, with_clock=True), dict(K=5, with_clock=False), dict(K=5, with_clock=True), dict(K=3, with_clock=True, names=True), dict(K=4, with_clock=False, names=True)])
+def identity(ctx, K, with_clock, names=False):
+    """names: every incarnation carries a process name chosen from NAMES (parentheses, blanks, a newline, text that looks like the
+    rest of a stat record) and may rename itself (event `rename`): the identity must not depend on the name"""
     k = simk.Kernel(ctx)
     simk.system_files(k)
     bt = [ctx.int("btime0", 10**9, 2 * 10**9)]
     inc = [ctx.int("start0", 0, 10**7)]          # start ticks of successive incarnations of PID 77
-    state = {"listed": True, "zombie": False, "inc": 0}
+    state = {"listed": True, "zombie": False, "inc": 0, "comm": ctx.choice("name0", NAMES) if names else b"cat"}
     simk.full_process(k, 1, ppid=0, comm="init")
     simk.full_process(k, PID)
 
     def stat_file():
         if not state["listed"]:
             raise simk.oserr(errno.ENOENT, f"/proc/{PID}/stat")
-        return simk.stat_record(k, PID, b"cat", b"Z" if state["zombie"] else b"S", {4: 1, 22: inc[state["inc"]]})
+        return simk.stat_record(k, PID, state["comm"], b"Z" if state["zombie"] else b"S", {4: 1, 22: inc[state["inc"]]})
 
     k.files[f"/proc/{PID}/stat"] = stat_file
     k.files["/proc/stat"] = lambda: b"cpu  1 2 3 4 5 6 7 8 9 10\ncpu0 1 2 3 4 5 6 7 8 9 10\nbtime " + k.num(bt[-1]) + b"\n"
@@ -49,6 +55,8 @@ def identity(ctx, K, with_clock):
     objs = []      # (object, incarnation index)
     dead = set()   # objects already seen not running: must stay so
     events = EVENTS if with_clock else [e for e in EVENTS if e != "clock_step"]
+    if names:
+        events = events + ["rename"]
     log = []
     import contextlib
 
@@ -73,7 +81,11 @@ def identity(ctx, K, with_clock):
                     ctx.assume(ctx.neg(ctx.eq(n, old)))
                 inc.append(n)
                 state.update(inc=len(inc) - 1, listed=True, zombie=False)
+                if names:
+                    state["comm"] = ctx.choice(f"name{len(inc) - 1}", NAMES)
                 k.dirs["/proc"] = ["1", str(PID)]
+            elif ev == "rename":
+                state["comm"] = ctx.choice(f"name_at{i}", NAMES)
             elif ev == "clock_step":
                 bt.append(ctx.int(f"btime{len(bt)}", 10**9, 2 * 10**9))
             elif ev == "boot_time()":
